@@ -162,10 +162,32 @@ func (r Ring) AddScalarBigint(p1 Poly, scalar *big.Int, p2 Poly) {
 	}
 }
 
+// applyDoubleRNSScalarSmall evaluates p2[j] = f(p1[j], p2[j], scalar0 or scalar1) coefficient by coefficient.
+// It serves the *DoubleRNSScalar methods on rings whose halves (N/2 coefficients) are shorter than the 8-lane
+// vector kernels (N = 8), which would otherwise process coefficients twice and write past the half.
+func (r Ring) applyDoubleRNSScalarSmall(p1 Poly, scalar0, scalar1 RNSScalar, p2 Poly, f func(a, b, scalar uint64, s *SubRing) uint64) {
+	NHalf := r.N() >> 1
+	for i, s := range r.SubRings[:r.level+1] {
+		for j := 0; j < r.N(); j++ {
+			scalar := scalar0[i]
+			if j >= NHalf {
+				scalar = scalar1[i]
+			}
+			p2.Coeffs[i][j] = f(p1.Coeffs[i][j], p2.Coeffs[i][j], scalar, s)
+		}
+	}
+}
+
 // AddDoubleRNSScalar evaluates p2 = p1[:N/2] + scalar0 || p1[N/2] + scalar1 coefficient-wise in the ring,
 // with the scalar values expressed in the CRT decomposition at a given level.
 func (r Ring) AddDoubleRNSScalar(p1 Poly, scalar0, scalar1 RNSScalar, p2 Poly) {
 	NHalf := r.N() >> 1
+	if NHalf < MinimumRingDegreeForLoopUnrolledOperations {
+		r.applyDoubleRNSScalarSmall(p1, scalar0, scalar1, p2, func(a, b, scalar uint64, s *SubRing) uint64 {
+			return CRed(a+scalar, s.Modulus)
+		})
+		return
+	}
 	for i, s := range r.SubRings[:r.level+1] {
 		s.AddScalar(p1.Coeffs[i][:NHalf], scalar0[i], p2.Coeffs[i][:NHalf])
 		s.AddScalar(p1.Coeffs[i][NHalf:], scalar1[i], p2.Coeffs[i][NHalf:])
@@ -176,6 +198,12 @@ func (r Ring) AddDoubleRNSScalar(p1 Poly, scalar0, scalar1 RNSScalar, p2 Poly) {
 // with the scalar values expressed in the CRT decomposition at a given level.
 func (r Ring) SubDoubleRNSScalar(p1 Poly, scalar0, scalar1 RNSScalar, p2 Poly) {
 	NHalf := r.N() >> 1
+	if NHalf < MinimumRingDegreeForLoopUnrolledOperations {
+		r.applyDoubleRNSScalarSmall(p1, scalar0, scalar1, p2, func(a, b, scalar uint64, s *SubRing) uint64 {
+			return CRed(a+s.Modulus-scalar, s.Modulus)
+		})
+		return
+	}
 	for i, s := range r.SubRings[:r.level+1] {
 		s.SubScalar(p1.Coeffs[i][:NHalf], scalar0[i], p2.Coeffs[i][:NHalf])
 		s.SubScalar(p1.Coeffs[i][NHalf:], scalar1[i], p2.Coeffs[i][NHalf:])
@@ -249,6 +277,12 @@ func (r Ring) MulScalarBigintThenAdd(p1 Poly, scalar *big.Int, p2 Poly) {
 // with the scalar values expressed in the CRT decomposition at a given level.
 func (r Ring) MulDoubleRNSScalar(p1 Poly, scalar0, scalar1 RNSScalar, p2 Poly) {
 	NHalf := r.N() >> 1
+	if NHalf < MinimumRingDegreeForLoopUnrolledOperations {
+		r.applyDoubleRNSScalarSmall(p1, scalar0, scalar1, p2, func(a, b, scalar uint64, s *SubRing) uint64 {
+			return MRed(a, MForm(scalar, s.Modulus, s.BRedConstant), s.Modulus, s.MRedConstant)
+		})
+		return
+	}
 	for i, s := range r.SubRings[:r.level+1] {
 		s.MulScalarMontgomery(p1.Coeffs[i][:NHalf], MForm(scalar0[i], s.Modulus, s.BRedConstant), p2.Coeffs[i][:NHalf])
 		s.MulScalarMontgomery(p1.Coeffs[i][NHalf:], MForm(scalar1[i], s.Modulus, s.BRedConstant), p2.Coeffs[i][NHalf:])
@@ -259,6 +293,12 @@ func (r Ring) MulDoubleRNSScalar(p1 Poly, scalar0, scalar1 RNSScalar, p2 Poly) {
 // with the scalar values expressed in the CRT decomposition at a given level.
 func (r Ring) MulDoubleRNSScalarThenAdd(p1 Poly, scalar0, scalar1 RNSScalar, p2 Poly) {
 	NHalf := r.N() >> 1
+	if NHalf < MinimumRingDegreeForLoopUnrolledOperations {
+		r.applyDoubleRNSScalarSmall(p1, scalar0, scalar1, p2, func(a, b, scalar uint64, s *SubRing) uint64 {
+			return CRed(b+MRed(a, MForm(scalar, s.Modulus, s.BRedConstant), s.Modulus, s.MRedConstant), s.Modulus)
+		})
+		return
+	}
 	for i, s := range r.SubRings[:r.level+1] {
 		s.MulScalarMontgomeryThenAdd(p1.Coeffs[i][:NHalf], MForm(scalar0[i], s.Modulus, s.BRedConstant), p2.Coeffs[i][:NHalf])
 		s.MulScalarMontgomeryThenAdd(p1.Coeffs[i][NHalf:], MForm(scalar1[i], s.Modulus, s.BRedConstant), p2.Coeffs[i][NHalf:])
